@@ -191,7 +191,15 @@ def rule_b(repo, chk, p, ex):
     fl = [n for n in g.nodes if n.kind == 'stmt' and 'self' in pat.stores_attr(n.ast, '__on_firstline', True)]
     need(fl, 'C13.b: execute() never completes the first line')
     stores = [n for n in g.nodes if n.kind == 'stmt' and 'self' in pat.stores_attr(n.ast, '_buf')]
-    rest_st = [n for n in stores if 'rest' in src(n.ast.value)]
+    def _is_tail(v):
+        # `[x]` where x is (a local holding) the part of the joined data after the line: `joined[idx + 2:]`
+        if not (isinstance(v, ast.List) and len(v.elts) == 1):
+            return False
+        for e_ in pat.deref(ex, v.elts[0]):
+            if isinstance(e_, ast.Subscript) and isinstance(e_.slice, ast.Slice) and e_.slice.lower is not None and e_.slice.upper is None:
+                return True
+        return False
+    rest_st = [n for n in stores if isinstance(n.ast, ast.Assign) and _is_tail(n.ast.value)]
     for n in fl:
         okp = _parse_ok_edge(g)
         p_ = Q.escapes(g, [n], lambda m: m in rest_st, avoid_edge=lambda e: e.src.kind == 'test' and e.kind == 'F' and '_parse_firstline' in src(e.src.ast),
